@@ -54,6 +54,11 @@ CHECKS = {
         text="exhaustive: 2 threads x 2 extractions x <= 3 environment actions per attribute vector (own glue, built-in, both, raising, importing, removing); replay: the controller releases exactly the thread TLC scheduled and compares sys.modules, pending table, module attributes, cache, lock, call log; the property is also evaluated on the real state at every extraction return",
         note="F4 (length-only cache) known finding with an independent history signature; F9 fixed; re-created module objects and re-entrant glue (O3) not modelled",
         ref="3.4, 4 C17"),
+    "C11": dict(
+        technique="TLA+ spec of fill_context's loop and the contextlib glue's unwrap paths on given hook tables (FillContext.tla); TLC checks call-pattern / reset / prune / guard on every history; tables replayed through the public hooks outside and inside an extraction",
+        text="every chain of length 0..4 over plain / generator-based (registered or not) managers with every ending and elaborate effect, exiting or not, cycles with the real bound 100, plus seeded random tables; final Context and hook call log compared on 3.9-3.12",
+        note="4 manager ids; sync @contextmanager only; hooks are functions of the manager",
+        ref="3.2, 4 C11"),
     "C13": dict(
         technique="TLA+ spec of the thread-local option stack against per-thread call trees (Options.tla), TLC exhaustive over trees x interleavings; simulated schedules replayed on real threads whose hooks grow the call tree one action at a time",
         text="Scoped / IdleIsNone / Isolated for all call trees of depth <= 3 on two threads; 2- and 3-thread schedules of 24 actions replayed with the public-API observation (stub vs full, contexts vs bare, guard error) compared after every action on 3.9-3.12",
